@@ -128,8 +128,10 @@ def _contexts(rlines):
     stmt = None
     seen_feature = False
     in_rule = False
+    fbg = rbg = 0           # steps seen so far in the feature background / in the current rule's own background
     for i in range(len(rlines) + 1):
-        ctx.append({"in_doc": in_doc, "prev": prev, "stmt": stmt, "seen_feature": seen_feature, "in_rule": in_rule})
+        ctx.append({"in_doc": in_doc, "prev": prev, "stmt": stmt, "seen_feature": seen_feature, "in_rule": in_rule,
+                    "feature_bg_steps": fbg, "rule_bg_steps": rbg})
         if i == len(rlines):
             break
         k = rlines[i].kind
@@ -145,6 +147,12 @@ def _contexts(rlines):
                 seen_feature = True
             if k == "rule":
                 in_rule = True
+                rbg = 0
+        if k == "step" and stmt == "background":
+            if in_rule:
+                rbg += 1
+            else:
+                fbg += 1
         prev = k
     return ctx
 
@@ -162,9 +170,13 @@ def _is_fault(kind, c, has_bg, feature_bg=True):
     if kind == "and-without-predecessor":
         # first step of a Background: nothing to inherit a step type from unless it is a rule's background below a
         # feature background (whose steps it inherits) - whatever the scenarios before it ended with
-        if prev == "background" and (not c["in_rule"] or not feature_bg):
-            return True
-        return (not has_bg) and prev in ("scenario", "scenario_outline")
+        if prev == "background":
+            return (not c["in_rule"]) or c["feature_bg_steps"] == 0
+        # first step of a scenario / outline: the type comes from the last step of the container's background (a rule's own
+        # background steps, else the steps it inherits from the feature background); nothing there -> fault
+        if prev in ("scenario", "scenario_outline"):
+            return c["feature_bg_steps"] == 0 and (not c["in_rule"] or c["rule_bg_steps"] == 0)
+        return False
     if kind == "ragged-table-row":
         return prev == "table-row"
     if kind == "bad-tag-token":
